@@ -86,6 +86,27 @@ CLAIMED = {
             "attempt leaves parent and siblings unchanged.",
             "The BIP85 wif/xprv validity branch is covered by C12's chosen-PRF events; IL = 0 on the public side is not judged.",
             "DESIGN.md section 5 C18"),
+    "C07": ("TLA+ ExtKey spec (SLIP-132 table, 78-byte layout): TLC exhaustive over 12 versions x field corners, "
+            "111-character theorem by monotonicity, + TLC trace validation of serialise/parse/import calls",
+            "ExtKey.tla holds the version table and the payload layout. MC_ExtKey checks, for all 12 versions and near-miss "
+            "constants x depth/index/fingerprint/chain-code corners, round trip, identical re-serialisation, bijectivity of "
+            "the table, rejection of unknown versions, master-zero fields and absence of the scalar from public payloads; "
+            "TLC also evaluates at real scale that the smallest and largest 82-byte strings of every version have 111 "
+            "characters and the same 4-character prefix. Trace_Keys re-derives every recorded extended_*_key(version), "
+            "Prv/PubKeyNode.parse (str/bytes/stream) and BaseWallet.from_extended_key result, decoding emitted strings "
+            "with the spec's own Base58Check.",
+            "Hash256 and curve membership are oracle tables; payloads that are not valid BIP32 keys are not judged.",
+            "DESIGN.md section 5 C07"),
+    "C09": ("TLA+ KeyCodec spec: TLC toy-scale accept-iff-valid + WIF payload round trip, first-character theorem at "
+            "real scale, + TLC trace validation of key constructors, wif/from_wif, sec/parse",
+            "MC_KeyCodec enumerates every byte string of length 0..2 as constructor input at toy scale and proves at real "
+            "scale (TLC-evaluated assumptions) that the four WIF flavours have first characters {K,L}, {c}, {5}, {9}, which "
+            "is what from_wif's compressed-flag detection relies on. Trace_Keys validates recorded PrivateKey "
+            "constructions (bytes/int/from_int/parse; 0, n, n+1, 2^256-1, 2^256, lengths 0..40), WIF strings and their "
+            "decoding, SEC encodings of k*G against the harness curve, and PublicKey.parse on valid, off-curve, no-sqrt, "
+            "x>=p, wrong-prefix and wrong-length candidates.",
+            "k*G and curve membership come from the harness's own secp256k1; hybrid and raw 64-byte encodings are not judged.",
+            "DESIGN.md section 5 C09"),
 }
 
 ALL = ["C%02d" % i for i in range(1, 21)]
